@@ -17,7 +17,7 @@ def effectTable : List FnRow := [
   ⟨[], []⟩,  -- 3 astral.LocationInfo.timezone_group
   ⟨[], []⟩,  -- 4 astral.LocationInfo.tzinfo
   ⟨[], [7]⟩,  -- 5 astral.Observer.__setattr__
-  ⟨[.readsClock, .io], [118]⟩,  -- 6 astral.__main__.<module>
+  ⟨[.readsClock, .io], [117]⟩,  -- 6 astral.__main__.<module>
   ⟨[], []⟩,  -- 7 astral.dms_to_float
   ⟨[], []⟩,  -- 8 astral.geocoder.<module>
   ⟨[.mutatesParam], [12, 15]⟩,  -- 9 astral.geocoder._add_location_to_db  (store through db)
@@ -47,35 +47,35 @@ def effectTable : List FnRow := [
   ⟨[], []⟩,  -- 33 astral.location.Location.__eq__
   ⟨[.mutatesParam], []⟩,  -- 34 astral.location.Location.__init__  (store through self; store through self; store through self)
   ⟨[], []⟩,  -- 35 astral.location.Location.__repr__
-  ⟨[.unknownCall], [100]⟩,  -- 36 astral.location.Location.blue_hour  (call .today on self)
-  ⟨[.unknownCall], [101]⟩,  -- 37 astral.location.Location.dawn  (call .today on self)
-  ⟨[.unknownCall], [102]⟩,  -- 38 astral.location.Location.daylight  (call .today on self)
-  ⟨[.unknownCall], [103]⟩,  -- 39 astral.location.Location.dusk  (call .today on self)
-  ⟨[.unknownCall], [109]⟩,  -- 40 astral.location.Location.golden_hour  (call .today on self)
+  ⟨[.unknownCall], [99]⟩,  -- 36 astral.location.Location.blue_hour  (call .today on self)
+  ⟨[.unknownCall], [100]⟩,  -- 37 astral.location.Location.dawn  (call .today on self)
+  ⟨[.unknownCall], [101]⟩,  -- 38 astral.location.Location.daylight  (call .today on self)
+  ⟨[.unknownCall], [102]⟩,  -- 39 astral.location.Location.dusk  (call .today on self)
+  ⟨[.unknownCall], [108]⟩,  -- 40 astral.location.Location.golden_hour  (call .today on self)
   ⟨[], []⟩,  -- 41 astral.location.Location.info
   ⟨[.mutatesParam], [7]⟩,  -- 42 astral.location.Location.latitude  (store through self)
   ⟨[.mutatesParam], [7]⟩,  -- 43 astral.location.Location.longitude  (store through self)
-  ⟨[.unknownCall], [112]⟩,  -- 44 astral.location.Location.midnight  (call .today on self)
+  ⟨[.unknownCall], [111]⟩,  -- 44 astral.location.Location.midnight  (call .today on self)
   ⟨[.unknownCall], [81]⟩,  -- 45 astral.location.Location.moon_phase  (call .today on self)
   ⟨[.unknownCall], [79]⟩,  -- 46 astral.location.Location.moonrise  (call .today on self)
   ⟨[.unknownCall], [80]⟩,  -- 47 astral.location.Location.moonset  (call .today on self)
   ⟨[.mutatesParam], []⟩,  -- 48 astral.location.Location.name  (store through self)
-  ⟨[.unknownCall], [114]⟩,  -- 49 astral.location.Location.night  (call .today on self)
-  ⟨[.unknownCall], [115]⟩,  -- 50 astral.location.Location.noon  (call .today on self)
+  ⟨[.unknownCall], [113]⟩,  -- 49 astral.location.Location.night  (call .today on self)
+  ⟨[.unknownCall], [114]⟩,  -- 50 astral.location.Location.noon  (call .today on self)
   ⟨[], []⟩,  -- 51 astral.location.Location.observer
-  ⟨[.unknownCall], [117]⟩,  -- 52 astral.location.Location.rahukaalam  (call .today on self)
+  ⟨[.unknownCall], [116]⟩,  -- 52 astral.location.Location.rahukaalam  (call .today on self)
   ⟨[.mutatesParam], []⟩,  -- 53 astral.location.Location.region  (store through self)
-  ⟨[.unknownCall], [99]⟩,  -- 54 astral.location.Location.solar_azimuth  (call .now on astral)
+  ⟨[.unknownCall], [98]⟩,  -- 54 astral.location.Location.solar_azimuth  (call .now on astral)
   ⟨[.mutatesParam], []⟩,  -- 55 astral.location.Location.solar_depression  (store through self; store through self; store through self)
-  ⟨[.unknownCall], [105]⟩,  -- 56 astral.location.Location.solar_elevation  (call .now on astral)
+  ⟨[.unknownCall], [104]⟩,  -- 56 astral.location.Location.solar_elevation  (call .now on astral)
   ⟨[.unknownCall], []⟩,  -- 57 astral.location.Location.solar_zenith  (call .solar_elevation on self)
-  ⟨[.unknownCall], [118]⟩,  -- 58 astral.location.Location.sun  (call .today on self)
-  ⟨[.unknownCall], [126]⟩,  -- 59 astral.location.Location.sunrise  (call .today on self)
-  ⟨[.unknownCall], [127]⟩,  -- 60 astral.location.Location.sunset  (call .today on self)
-  ⟨[.unknownCall], [128]⟩,  -- 61 astral.location.Location.time_at_elevation  (call .today on self)
+  ⟨[.unknownCall], [117]⟩,  -- 58 astral.location.Location.sun  (call .today on self)
+  ⟨[.unknownCall], [125]⟩,  -- 59 astral.location.Location.sunrise  (call .today on self)
+  ⟨[.unknownCall], [126]⟩,  -- 60 astral.location.Location.sunset  (call .today on self)
+  ⟨[.unknownCall], [127]⟩,  -- 61 astral.location.Location.time_at_elevation  (call .today on self)
   ⟨[.mutatesParam], []⟩,  -- 62 astral.location.Location.timezone  (store through self)
-  ⟨[], [137]⟩,  -- 63 astral.location.Location.today
-  ⟨[.unknownCall], [130]⟩,  -- 64 astral.location.Location.twilight  (call .today on self)
+  ⟨[], [136]⟩,  -- 63 astral.location.Location.today
+  ⟨[.unknownCall], [129]⟩,  -- 64 astral.location.Location.twilight  (call .today on self)
   ⟨[], []⟩,  -- 65 astral.location.Location.tzinfo
   ⟨[], []⟩,  -- 66 astral.moon.<module>
   ⟨[], [26]⟩,  -- 67 astral.moon._phase_asfloat
@@ -90,9 +90,9 @@ def effectTable : List FnRow := [
   ⟨[], [71, 72, 73, 74, 75, 77, 84, 85, 86]⟩,  -- 76 astral.moon.moon_position
   ⟨[], []⟩,  -- 77 astral.moon.moon_position._calc_value
   ⟨[.mutatesParam], [83]⟩,  -- 78 astral.moon.moon_transit_event  (store through window; store through window; store through window)
-  ⟨[], [82, 137]⟩,  -- 79 astral.moon.moonrise
-  ⟨[], [82, 137]⟩,  -- 80 astral.moon.moonset
-  ⟨[], [67, 137]⟩,  -- 81 astral.moon.phase
+  ⟨[], [82, 136]⟩,  -- 79 astral.moon.moonrise
+  ⟨[], [82, 136]⟩,  -- 80 astral.moon.moonset
+  ⟨[], [67, 136]⟩,  -- 81 astral.moon.phase
   ⟨[], [28, 70, 76, 78, 83, 92]⟩,  -- 82 astral.moon.riseset
   ⟨[], []⟩,  -- 83 astral.moon.sgn
   ⟨[], []⟩,  -- 84 astral.moon.sun_mean_anomoly
@@ -105,59 +105,58 @@ def effectTable : List FnRow := [
   ⟨[], [28]⟩,  -- 91 astral.sidereal.gmst
   ⟨[], [91]⟩,  -- 92 astral.sidereal.lmst
   ⟨[], []⟩,  -- 93 astral.sun.<module>
-  ⟨[.mutatesParam], [97, 98]⟩,  -- 94 astral.sun._adjustment_for_elevation  (store through observer)
-  ⟨[], [26, 31, 106]⟩,  -- 95 astral.sun._midnight_utc
-  ⟨[], [26, 31, 106]⟩,  -- 96 astral.sun._noon_utc
-  ⟨[], []⟩,  -- 97 astral.sun.adjust_to_horizon
-  ⟨[], []⟩,  -- 98 astral.sun.adjust_to_obscuring_feature
-  ⟨[], [88, 133]⟩,  -- 99 astral.sun.azimuth
-  ⟨[.mutatesParam], [128, 137]⟩,  -- 100 astral.sun.blue_hour
-  ⟨[.mutatesParam], [129, 137]⟩,  -- 101 astral.sun.dawn
-  ⟨[.mutatesParam], [126, 127, 137]⟩,  -- 102 astral.sun.daylight
-  ⟨[.mutatesParam], [129, 137]⟩,  -- 103 astral.sun.dusk
-  ⟨[], []⟩,  -- 104 astral.sun.eccentric_location_earth_orbit
-  ⟨[], [88, 132]⟩,  -- 105 astral.sun.elevation
-  ⟨[], [104, 107, 108, 131]⟩,  -- 106 astral.sun.eq_of_time
-  ⟨[], []⟩,  -- 107 astral.sun.geom_mean_anomaly_sun
-  ⟨[], []⟩,  -- 108 astral.sun.geom_mean_long_sun
-  ⟨[.mutatesParam], [128, 137]⟩,  -- 109 astral.sun.golden_hour
-  ⟨[], []⟩,  -- 110 astral.sun.hour_angle
-  ⟨[], []⟩,  -- 111 astral.sun.mean_obliquity_of_ecliptic
-  ⟨[], [95, 137]⟩,  -- 112 astral.sun.midnight
-  ⟨[], []⟩,  -- 113 astral.sun.minutes_to_timedelta
-  ⟨[.mutatesParam], [101, 103, 137]⟩,  -- 114 astral.sun.night
-  ⟨[], [96, 137]⟩,  -- 115 astral.sun.noon
-  ⟨[], [111]⟩,  -- 116 astral.sun.obliquity_correction
-  ⟨[.mutatesParam], [126, 127, 137]⟩,  -- 117 astral.sun.rahukaalam
-  ⟨[.mutatesParam], [101, 103, 115, 126, 127, 137]⟩,  -- 118 astral.sun.sun
-  ⟨[], [125]⟩,  -- 119 astral.sun.sun_apparent_long
-  ⟨[], [116, 119]⟩,  -- 120 astral.sun.sun_declination
-  ⟨[], [107]⟩,  -- 121 astral.sun.sun_eq_of_center
-  ⟨[], [104, 124]⟩,  -- 122 astral.sun.sun_rad_vector
-  ⟨[], [116, 119]⟩,  -- 123 astral.sun.sun_rt_ascension
-  ⟨[], [107, 121]⟩,  -- 124 astral.sun.sun_true_anomoly
-  ⟨[], [108, 121]⟩,  -- 125 astral.sun.sun_true_long
-  ⟨[.mutatesParam], [115, 129, 132, 137]⟩,  -- 126 astral.sun.sunrise
-  ⟨[.mutatesParam], [115, 129, 132, 137]⟩,  -- 127 astral.sun.sunset
-  ⟨[.mutatesParam], [129, 137]⟩,  -- 128 astral.sun.time_at_elevation
-  ⟨[.mutatesParam], [26, 31, 89, 94, 106, 110, 113, 120]⟩,  -- 129 astral.sun.time_of_transit
-  ⟨[.mutatesParam], [101, 103, 126, 127, 137]⟩,  -- 130 astral.sun.twilight
-  ⟨[], [116]⟩,  -- 131 astral.sun.var_y
-  ⟨[], [88, 133]⟩,  -- 132 astral.sun.zenith
-  ⟨[], [26, 31, 89, 106, 120]⟩,  -- 133 astral.sun.zenith_and_azimuth
-  ⟨[], []⟩,  -- 134 astral.table4.<module>
-  ⟨[], []⟩,  -- 135 astral.time_to_hours
-  ⟨[], [135]⟩,  -- 136 astral.time_to_seconds
-  ⟨[], [88]⟩  -- 137 astral.today
+  ⟨[], [26, 31, 105]⟩,  -- 94 astral.sun._midnight_utc
+  ⟨[], [26, 31, 105]⟩,  -- 95 astral.sun._noon_utc
+  ⟨[], []⟩,  -- 96 astral.sun.adjust_to_horizon
+  ⟨[], []⟩,  -- 97 astral.sun.adjust_to_obscuring_feature
+  ⟨[], [88, 132]⟩,  -- 98 astral.sun.azimuth
+  ⟨[], [127, 136]⟩,  -- 99 astral.sun.blue_hour
+  ⟨[], [128, 136]⟩,  -- 100 astral.sun.dawn
+  ⟨[], [125, 126, 136]⟩,  -- 101 astral.sun.daylight
+  ⟨[], [128, 136]⟩,  -- 102 astral.sun.dusk
+  ⟨[], []⟩,  -- 103 astral.sun.eccentric_location_earth_orbit
+  ⟨[], [88, 131]⟩,  -- 104 astral.sun.elevation
+  ⟨[], [103, 106, 107, 130]⟩,  -- 105 astral.sun.eq_of_time
+  ⟨[], []⟩,  -- 106 astral.sun.geom_mean_anomaly_sun
+  ⟨[], []⟩,  -- 107 astral.sun.geom_mean_long_sun
+  ⟨[], [127, 136]⟩,  -- 108 astral.sun.golden_hour
+  ⟨[], []⟩,  -- 109 astral.sun.hour_angle
+  ⟨[], []⟩,  -- 110 astral.sun.mean_obliquity_of_ecliptic
+  ⟨[], [94, 136]⟩,  -- 111 astral.sun.midnight
+  ⟨[], []⟩,  -- 112 astral.sun.minutes_to_timedelta
+  ⟨[], [100, 102, 136]⟩,  -- 113 astral.sun.night
+  ⟨[], [95, 136]⟩,  -- 114 astral.sun.noon
+  ⟨[], [110]⟩,  -- 115 astral.sun.obliquity_correction
+  ⟨[], [125, 126, 136]⟩,  -- 116 astral.sun.rahukaalam
+  ⟨[], [100, 102, 114, 125, 126, 136]⟩,  -- 117 astral.sun.sun
+  ⟨[], [124]⟩,  -- 118 astral.sun.sun_apparent_long
+  ⟨[], [115, 118]⟩,  -- 119 astral.sun.sun_declination
+  ⟨[], [106]⟩,  -- 120 astral.sun.sun_eq_of_center
+  ⟨[], [103, 123]⟩,  -- 121 astral.sun.sun_rad_vector
+  ⟨[], [115, 118]⟩,  -- 122 astral.sun.sun_rt_ascension
+  ⟨[], [106, 120]⟩,  -- 123 astral.sun.sun_true_anomoly
+  ⟨[], [107, 120]⟩,  -- 124 astral.sun.sun_true_long
+  ⟨[], [114, 128, 131, 136]⟩,  -- 125 astral.sun.sunrise
+  ⟨[], [114, 128, 131, 136]⟩,  -- 126 astral.sun.sunset
+  ⟨[], [128, 136]⟩,  -- 127 astral.sun.time_at_elevation
+  ⟨[], [26, 31, 89, 96, 97, 105, 109, 112, 119]⟩,  -- 128 astral.sun.time_of_transit
+  ⟨[], [100, 102, 125, 126, 136]⟩,  -- 129 astral.sun.twilight
+  ⟨[], [115]⟩,  -- 130 astral.sun.var_y
+  ⟨[], [88, 132]⟩,  -- 131 astral.sun.zenith
+  ⟨[], [26, 31, 89, 105, 119]⟩,  -- 132 astral.sun.zenith_and_azimuth
+  ⟨[], []⟩,  -- 133 astral.table4.<module>
+  ⟨[], []⟩,  -- 134 astral.time_to_hours
+  ⟨[], [134]⟩,  -- 135 astral.time_to_seconds
+  ⟨[], [88]⟩  -- 136 astral.today
 ]
 
 /-- the public sun and moon functions (sun.__all__, moon.__all__, moon angles) -/
-def publicFns : List Nat := [118, 101, 126, 115, 112, 127, 103, 102, 114, 130, 100, 109, 117, 132, 99, 105, 128, 79, 80, 81, 68, 69, 87]
+def publicFns : List Nat := [117, 100, 125, 114, 111, 126, 102, 101, 113, 129, 99, 108, 116, 131, 98, 104, 127, 79, 80, 81, 68, 69, 87]
 
 /-- the public geocoder functions (module-level, not underscore-prefixed) -/
 def geoFns : List Nat := [16, 17, 18, 19, 20, 21]
 
 /-- the functions of astral.julian and the time-unit helpers of astral/__init__ -/
-def julianFns : List Nat := [22, 24, 25, 26, 27, 28, 29, 30, 31, 135, 136]
+def julianFns : List Nat := [22, 24, 25, 26, 27, 28, 29, 30, 31, 134, 135]
 
 end Astral.Gen
